@@ -385,7 +385,11 @@ def run_c13(tier, seed):
         src = open("/repo/tests/test_schema.py").read()
     except Exception:
         src = ""
-    for raw in valid_pool(tier):
+    # integers must come out in plain decimal whatever their size: fixed types of a million bytes and more
+    big = [{"type": "fixed", "name": "Big", "size": 1000000},
+           {"type": "record", "name": "HasBig", "fields": [{"name": "b", "type": {"type": "fixed", "name": "Big7", "size": 1234567}},
+                                                            {"name": "u", "type": ["null", {"type": "fixed", "name": "Big8", "size": 10000000}]}]}]
+    for raw in valid_pool(tier) + big:
         try:
             p, ns = SS.parse_top(raw)
         except SS.Invalid:
